@@ -40,6 +40,7 @@ THEOREMS = [
     "FaxVerif.C10.access_render",
     "FaxVerif.C10.access_typed",
     "FaxVerif.C10.access_exact",
+    "FaxVerif.C10.element_pointer_honoured",
     "FaxVerif.C10.declared_type_used",
     "FaxVerif.C10.fallback_double_warns",
     "FaxVerif.C10.fallback_logs_warning",
@@ -70,7 +71,7 @@ RULE = (
     "incl. unicode blanks and arbitrary strings); terminal/collection constructors; member access for pointer depth x deref "
     "count 0..3 exhaustive then random to 9; metadata lists -> registry; determine_type_mf on declared / undeclared / base-type "
     "receivers; enum definitions x attribute paths. Pipeline stream: one query per case whose own metadata declares the event "
-    "collection, the method signatures (value / pointer depth 0..3 / object / collection by value or pointer of values or "
+    "collection (on CMS with element_pointer absent / False / True), the method signatures (value / pointer depth 0..3 / object / collection by value or pointer of values or "
     "pointers / deref_count 0..3 / tree_type) and enums; columns are chains of calls, indexings and Select/SelectMany loops over "
     "them; exhaustive over single-signature worlds, then random worlds with 3 classes and chains up to 6 steps, on the three "
     "backends. A case is non-trivial when it exercises a pointer depth or deref count > 0, a collection, a tree_type, an enum or "
@@ -107,12 +108,28 @@ LEVEL_NOTE = (
     "them (counterexample theorem + known finding: dereferenced once only); column_typed_partial excludes a tree_type on a "
     "pointer-valued method (counterexample + known finding: column float* fed by static_cast<float>). Proof frontier: columns "
     "that end in `+ 1` or `== enum constant` are covered by the executable Spec on the implementation's text and by g++, not by a "
-    "theorem; CMS `element_pointer` is a known finding replayed through g++ only. Trusted: Lean kernel; the typing rules as a model "
+    "theorem. CMS `element_pointer` (repaired in /repo f99b3dd) is modelled (`rootElemDepth`), generated in the main stream and replayed as a fixed finding. Trusted: Lean kernel; the typing rules as a model "
     "of C++ (validated by g++ each run); the expression parser; agreement model/Python is by differential execution."
 )
 
 BACKENDS = ["atlas", "cms_aod", "cms_miniaod"]
-ROOT_DEPTH = {"atlas": 1, "cms_aod": 0, "cms_miniaod": 0}
+
+
+def root_depth(case) -> int:
+    """Pointer depth of the event collection's elements as the C++ classes have it: ATLAS pointers, CMS values unless
+    the collection metadata declares element_pointer=True (harness-side statement of the declaration; the model's own
+    version is `rootElemDepth`, which the driver uses)."""
+    if case["backend"] == "atlas":
+        return 1
+    return 1 if case.get("element_pointer") is True else 0
+
+
+def mk_case(c: Dict[str, Any]) -> Dict[str, Any]:
+    """The fields of a case that define it (replay files and corpus entries carry more)."""
+    out = {"backend": c["backend"], "sigs": c["sigs"], "enums": c.get("enums", []), "cols": c["cols"]}
+    if c.get("element_pointer") is not None and c["backend"] != "atlas":
+        out["element_pointer"] = bool(c["element_pointer"])
+    return out
 ARITH = ["double", "int", "float"]
 TLOG = "func_adl_xAOD.common.ast_to_cpp_translator"
 
@@ -475,9 +492,13 @@ def mk_coll_sig(rng, owner, m, ebase, edepth, cname, cdepth, deref=None, econst=
     return s
 
 
-def collection_md(backend: str) -> Dict[str, Any]:
+def collection_md(case: Dict[str, Any]) -> Dict[str, Any]:
+    backend = case["backend"]
     kind = {"atlas": "add_atlas_event_collection_info", "cms_aod": "add_cms_aod_event_collection_info", "cms_miniaod": "add_cms_miniaod_event_collection_info"}[backend]
-    return {"metadata_type": kind, "name": "Things", "include_files": [], "container_type": "TC", "element_type": "T0", "contains_collection": True}
+    md = {"metadata_type": kind, "name": "Things", "include_files": [], "container_type": "TC", "element_type": "T0", "contains_collection": True}
+    if backend != "atlas" and case.get("element_pointer") is not None:  # the ATLAS branch refuses the key
+        md["element_pointer"] = bool(case["element_pointer"])
+    return md
 
 
 def steps_expr(var: str, steps: List[Dict[str, Any]]) -> str:
@@ -530,8 +551,12 @@ def case_mds(case: Dict[str, Any]) -> List[Dict[str, Any]]:
     return [sig_md(s) for s in case["sigs"]]
 
 
-def root_elem(case) -> Dict[str, Any]:
-    return {"name": "T0", "depth": ROOT_DEPTH[case["backend"]]}
+def root_req(case) -> Dict[str, Any]:
+    """What the driver needs to let the MODEL derive the element type of the event collection."""
+    r: Dict[str, Any] = {"backend": case["backend"]}
+    if case.get("element_pointer") is not None and case["backend"] != "atlas":
+        r["element_pointer"] = bool(case["element_pointer"])
+    return r
 
 
 # ----------------------------------------------------------------------------------------------
@@ -569,7 +594,7 @@ def _dataset():
     return _DS()
 
 
-def run_pipeline(case: Dict[str, Any], extra_collection_keys: Optional[Dict[str, Any]] = None) -> Dict[str, Any]:
+def run_pipeline(case: Dict[str, Any]) -> Dict[str, Any]:
     """Declare everything in the query's own metadata, translate through the public executor API."""
     backend = case["backend"]
     reset_globals()
@@ -582,9 +607,7 @@ def run_pipeline(case: Dict[str, Any], extra_collection_keys: Optional[Dict[str,
         with capture_warnings() as cw:
             try:
                 ds = _dataset()
-                cm = collection_md(backend)
-                if extra_collection_keys:
-                    cm.update(extra_collection_keys)
+                cm = collection_md(case)
                 ds = ds.MetaData(cm)
                 # func_adl's extract_metadata hands the dictionaries over outermost call first: apply them in reverse so
                 # that process_metadata sees `case_mds(case)` in list order (the order the model and the Spec use)
@@ -756,7 +779,7 @@ def cpp_world(case: Dict[str, Any], warned: List[List[str]]) -> str:
     for c, et in colls.items():
         if c not in owners:
             L.append(f"struct {c} : std::vector<{et}> {{}};")
-    root_elem_t = "T0*" if ROOT_DEPTH[case["backend"]] == 1 else "T0"
+    root_elem_t = "T0*" if root_depth(case) == 1 else "T0"
     L.append(f"struct TC : std::vector<{root_elem_t}> {{}};")
     return "\n".join(L)
 
@@ -851,6 +874,21 @@ def exhaustive_worlds(tier: str):
 CLASSES = ["T0", "T1", "T2"]
 
 
+def element_pointer_worlds(tier: str):
+    """CMS collections with the element_pointer key: every value form on an element reached by `->` / `.`."""
+    for backend in (["cms_aod"] if tier == "quick" else ["cms_aod", "cms_miniaod"]):
+        for ep in ([True] if tier == "quick" else [True, False]):
+            for deref in [None, 1, 2]:
+                yield {"backend": backend, "element_pointer": ep, "sigs": [mk_value_sig(None, "T0", "m", "double", 0, deref, "float" if deref else None)],
+                       "cols": [{"steps": [call("m")]}]}
+                for depth in [0, 1, 2]:
+                    yield {"backend": backend, "element_pointer": ep, "sigs": [mk_value_sig(None, "T0", "m", "T1", depth, deref), dict(V_DOUBLE)],
+                           "cols": [{"steps": [call("m"), call("v")]}]}
+                sig = mk_coll_sig(None, "T0", "c", "T1", 1, "Vec", 1, deref)
+                yield {"backend": backend, "element_pointer": ep, "sigs": [sig, dict(V_DOUBLE)],
+                       "cols": [{"steps": [call("c"), EACH, call("v")]}, {"steps": [call("c"), {"k": "index", "i": 0}, call("v")]}]}
+
+
 def random_world(rng) -> Dict[str, Any]:
     backend = rng.choice(["atlas", "atlas", "cms_aod", "cms_miniaod"])
     sigs: List[Dict[str, Any]] = []
@@ -888,7 +926,12 @@ def random_world(rng) -> Dict[str, Any]:
             sigs.append(mk_value_sig(rng, old["owner"], old["m"], rng.choice(CLASSES[1:]), rng.choice([0, 1, 2]), rng.choice([None, 1]), None))
         else:
             sigs.append(mk_value_sig(rng, old["owner"], old["m"], rng.choice(ARITH), 0, rng.choice([None, 0, 2]), rng.choice([None, "float"])))
-    return {"backend": backend, "sigs": sigs, "enums": enums}
+    w = {"backend": backend, "sigs": sigs, "enums": enums}
+    if backend != "atlas":  # CMS: elements by value unless the collection metadata says element_pointer=True
+        ep = rng.choice([None, False, True, True])
+        if ep is not None:
+            w["element_pointer"] = ep
+    return w
 
 
 def random_col(rng, world) -> Optional[Dict[str, Any]]:
@@ -993,24 +1036,27 @@ def nontrivial_case(case) -> bool:
     for s in case["sigs"]:
         if s["form"] == "coll" or (s.get("deref") or 0) > 0 or s.get("tree") or s.get("depth", 0) > 0:
             return True
-    return bool(case.get("enums"))
+    return bool(case.get("enums")) or case.get("element_pointer") is True
 
 
 def case_key(case) -> str:
-    return json.dumps({"backend": case["backend"], "mds": case_mds(case), "enums": case.get("enums", []), "query": query_src(case)}, sort_keys=True)
+    k = {"backend": case["backend"], "mds": case_mds(case), "enums": case.get("enums", []), "query": query_src(case)}
+    if case.get("element_pointer") is not None and case["backend"] != "atlas":
+        k["element_pointer"] = bool(case["element_pointer"])
+    return json.dumps(k, sort_keys=True)
 
 
 # ----------------------------------------------------------------------------------------------
 # evaluation of pipeline cases
 # ----------------------------------------------------------------------------------------------
 def model_reqs(case) -> List[Dict[str, Any]]:
-    return [{"op": "cols", "mds": case_mds(case), "enums": case.get("enums", []), "rootElem": root_elem(case),
+    return [{"op": "cols", "mds": case_mds(case), "enums": case.get("enums", []), **root_req(case),
              "cols": [{"steps": c["steps"], "fin": c.get("fin", {"k": "plain"})} for c in case["cols"]]}]
 
 
 def spec_req(case, res) -> Dict[str, Any]:
     obs = observe(res)
-    return {"op": "spec_frag", "mds": case_mds(case), "enums": case.get("enums", []), "rootElem": root_elem(case), "rootColl": "TC",
+    return {"op": "spec_frag", "mds": case_mds(case), "enums": case.get("enums", []), **root_req(case), "rootColl": "TC",
             "warned": [[w[0], w[1]] for w in res["fallbacks"]],
             "frag": {"root": obs["root"], "loops": obs["loops"], "cols": [{"name": c["name"], "decl": c["decl"], "seq": c["seq"], "rhs": c["rhs"]} for c in obs["cols"]]}}
 
@@ -1047,8 +1093,8 @@ def judge_pipeline(ctx, stream: str, cases: List[Dict[str, Any]], compile_all: b
         m, s = ans[2 * i], ans[2 * i + 1]
         key = case_key(c)
         ctx.count(f"pipe:{stream}")
-        ctx.count(f"pipe-backend:{c['backend']}")
-        sample = {"backend": c["backend"], "mds": case_mds(c), "enums": c.get("enums", []), "query": query_src(c),
+        ctx.count(f"pipe-backend:{c['backend']}" + ("" if c.get("element_pointer") is None else f":element_pointer={c['element_pointer']}"))
+        sample = {"backend": c["backend"], "collection_md": collection_md(c), "mds": case_mds(c), "enums": c.get("enums", []), "query": query_src(c),
                   "implementation": (r.get("query") if "err" not in r else r)}
         ctx.case(key, nontrivial_case(c), sample if ctx.dist.get(f"pipe:{stream}", 0) <= 2 and len(c["cols"]) <= 2 or ctx.dist.get(f"pipe:{stream}", 0) == 40 else None)
         if "bad" in m or "bad" in s:
@@ -1120,8 +1166,7 @@ def judge_pipeline(ctx, stream: str, cases: List[Dict[str, Any]], compile_all: b
 
 
 def _replay_case(c) -> Dict[str, Any]:
-    return {"kind": "pipeline", "backend": c["backend"], "sigs": c["sigs"], "enums": c.get("enums", []), "cols": c["cols"],
-            "mds": case_mds(c), "query": query_src(c)}
+    return {"kind": "pipeline", **mk_case(c), "collection_md": collection_md(c), "mds": case_mds(c), "query": query_src(c)}
 
 
 # ----------------------------------------------------------------------------------------------
@@ -1271,9 +1316,14 @@ def judge_units(ctx):
 def replay_known(ctx, entry: Dict[str, Any]) -> bool:
     """True when the listed input still fails."""
     inp = entry["input"]
-    if inp.get("kind") == "element_pointer":
-        return _element_pointer_fails(inp)
-    case = {"backend": inp["backend"], "sigs": inp["sigs"], "enums": inp.get("enums", []), "cols": inp["cols"]}
+    case = mk_case(inp)
+    if inp.get("kind") == "element_pointer":  # CMS collection declared with element_pointer=True
+        case["element_pointer"] = True
+    return _case_fails(ctx, case)
+
+
+def _case_fails(ctx, case) -> bool:
+    """Translate, type-check the text against the declarations (Spec), compile against the generated classes."""
     r = run_pipeline(case)
     if "err" in r:
         return True
@@ -1281,17 +1331,6 @@ def replay_known(ctx, entry: Dict[str, Any]) -> bool:
     if not s.get("holds", False):
         return True
     ok, _ = compile_cases([(case, r, r["fallbacks"])])[0]
-    return not ok
-
-
-def _element_pointer_fails(inp) -> bool:
-    """CMS collection declared with element_pointer=True: the elements are pointers in the C++ classes."""
-    case = {"backend": inp["backend"], "sigs": inp["sigs"], "enums": [], "cols": inp["cols"]}
-    r = run_pipeline(case, extra_collection_keys={"element_pointer": True})
-    if "err" in r:
-        return True
-    text = PRELUDE + cpp_fragment(0, case, r, r["fallbacks"]).replace("struct TC : std::vector<T0> {};", "struct TC : std::vector<T0*> {};")
-    ok, _ = gpp(text)
     return not ok
 
 
@@ -1316,10 +1355,10 @@ def run(ctx):
     corpus = [c for c in corpus_cases(ID)]
     pipe_corpus = [c for c in corpus if c.get("kind") == "pipeline"]
     if pipe_corpus:
-        judge_pipeline(ctx, "corpus", [{"backend": c["backend"], "sigs": c["sigs"], "enums": c.get("enums", []), "cols": c["cols"]} for c in pipe_corpus], compile_all=True)
+        judge_pipeline(ctx, "corpus", [mk_case(c) for c in pipe_corpus], compile_all=True)
     judge_units(ctx)
     thorough = ctx.tier == "thorough"
-    ex = list(exhaustive_worlds(ctx.tier))
+    ex = list(exhaustive_worlds(ctx.tier)) + list(element_pointer_worlds(ctx.tier))
     judge_pipeline(ctx, "exhaustive", ex, compile_all=thorough, compile_sample=60)
     n = 450 if not thorough else 6000
     rnd = [random_case(ctx.rng) for _ in range(n)]
@@ -1335,14 +1374,13 @@ def run(ctx):
     ctx.extra_cov["defect_exclusions"] = [
         "a loop opened on a collection reached through >= 2 pointers (known finding; index on it is inside the main stream)",
         "a tree_type on a method returning a pointer, used as a column (known finding)",
-        "CMS element_pointer=True (known finding)",
     ]
 
 
 def search(ctx, broken):
     """A broken obligation or correspondence: hunt for a concrete failing input with the Spec (and g++) as the only judges."""
     sub = _SearchCtx(ctx)
-    cases = list(exhaustive_worlds("thorough")) + [random_case(ctx.rng) for _ in range(1500)]
+    cases = list(exhaustive_worlds("thorough")) + list(element_pointer_worlds("thorough")) + [random_case(ctx.rng) for _ in range(1500)]
     judge_pipeline(sub, "search", cases, compile_all=False, compile_sample=150)
     if not sub.violations:
         judge_units(sub)
@@ -1400,7 +1438,7 @@ def shrink(ctx, v):
     c = v["case"]
     if c.get("kind") != "pipeline":
         return v
-    case = {"backend": c["backend"], "sigs": c["sigs"], "enums": c.get("enums", []), "cols": c["cols"]}
+    case = mk_case(c)
     changed = True
     while changed:
         changed = False
@@ -1425,9 +1463,7 @@ def shrink(ctx, v):
 def replay(ctx, rep) -> int:
     c = rep["case"]
     if c.get("kind") == "element_pointer":
-        bad = _element_pointer_fails(c)
-        print("element_pointer=True is", "ignored: the generated code does not compile against a collection of pointers" if bad else "honoured")
-        return 1 if bad else 0
+        c = {**c, "kind": "pipeline", "element_pointer": True}
     if c.get("kind") == "unit":
         req = {k: v for k, v in c.items() if k != "kind"}
         op = req["op"]
@@ -1444,7 +1480,7 @@ def replay(ctx, rep) -> int:
         a = ctx.driver(DRIVER, [req])[0]
         print("model:", json.dumps(a, ensure_ascii=False))
         return 0 if same_unit(op, a, im) else 1
-    case = {"backend": c["backend"], "sigs": c["sigs"], "enums": c.get("enums", []), "cols": c["cols"]}
+    case = mk_case(c)
     print("query:", query_src(case))
     for md in case_mds(case):
         print("metadata:", md)
